@@ -17,7 +17,7 @@ func init() {
 		Title:   "Event log stays within its memory bound, keeps the newest events, never panics",
 		Engines: "ACCOUNT (pairing of the size counter with every insert/delete), BOUND with loop invariants and three data-structure lemmas, LOCK, dominance",
 		Explanation: "Decided on glow.EventLogger in every configuration: ACCOUNT the running size counter is written only as size += 2*len(key) paired with the insertion of that key and size -= 2*len(key) paired with the deletion of that key, " +
-			"in the same basic block (so the counter equals the stored size after expiry too); LINE-KEY every stored entry's line equals its map key; BOUND-SZ the insertion is dominated by need + size <= max and need <= max for the same size value that is incremented " +
+			"in the same basic block (so the counter equals the stored size after expiry too); LINE-KEY every stored entry's line equals its map key; BOUND-SZ the insertion is dominated by need + size <= max (as written, or proved by BOUND's linear layer from an equivalent guard such as size <= max - need) and need <= max for the same size value that is incremented " +
 			"(so the counter never exceeds the maximum); the line is cut with key[:limit] under len(key) > limit; NONEMPTY every stored entry has at least one timestamp (insertions store a one-element list, updates append, the expiry reslice is followed in the same " +
 			"critical section by the deletion of every entry that became empty); EVICT the eviction loop takes the front of a list that holds every stored entry, sorted ascending by last timestamp, and runs only while need + size > max, which with need <= max and ACCOUNT " +
 			"implies a non-empty list; every other index/slice in the three methods and their comparison closures is proved by BOUND (sort.Slice contract for the closures); all methods are lock-balanced and touch the state only under the lock; " +
@@ -225,7 +225,7 @@ func eventLogAccount(c *an.Ctx, scope []*ssa.Function) bool {
 		}
 	}
 	c.Count("ACCOUNT", n)
-	c.Floor("ACCOUNT", 3)
+	c.Floor("ACCOUNT", 2) // at least one insertion and one deletion
 	return okAll
 }
 
@@ -260,6 +260,8 @@ func eventLogNonEmpty(c *an.Ctx, scope []*ssa.Function) bool {
 				switch {
 				case vt.K == an.KCall && strings.HasPrefix(vt.S, "builtin.append#"):
 					c.Proved("NONEMPTY", fn, st.Pos(), key, "updates is assigned an append result (never shorter, at least one element when an element is appended)", short(vt.Key()))
+				case literalSliceLen(st.Val) >= 1:
+					c.Proved("NONEMPTY", fn, st.Pos(), key, "updates is assigned a slice literal with at least one element", short(vt.Key()))
 				case vt.K == an.KMake || isEmptyLiteralSlice(vt):
 					// a fresh empty list must be filled before the entry is stored: checked at the insertion
 					filled := false
@@ -300,6 +302,22 @@ func eventLogNonEmpty(c *an.Ctx, scope []*ssa.Function) bool {
 	c.Count("NONEMPTY", n)
 	c.Floor("NONEMPTY", 2)
 	return okAll
+}
+
+// literalSliceLen: []T{a, b, ..} is compiled to new([n]T)[:]; returns n, or -1.
+func literalSliceLen(v ssa.Value) int {
+	sl, ok := v.(*ssa.Slice)
+	if !ok || sl.Low != nil || sl.High != nil || sl.Max != nil {
+		return -1
+	}
+	al, ok := sl.X.(*ssa.Alloc)
+	if !ok {
+		return -1
+	}
+	if arr, ok := al.Type().Underlying().(*types.Pointer).Elem().Underlying().(*types.Array); ok {
+		return int(arr.Len())
+	}
+	return -1
 }
 
 // isEmptyLiteralSlice: make([]T, 0) is compiled to new([0]T)[:0].
@@ -358,33 +376,72 @@ func expiryDeletesEmpty(p *an.Program, fn *ssa.Function, st *ssa.Store) bool {
 	}
 	// (3) a range loop over a slice deletes logs[elem]; the ranged slice is the phi fed by that append
 	lf := p.LockFlowOf(fn)
-	for _, b2 := range fn.Blocks {
-		for _, in := range b2.Instrs {
-			call, ok := in.(*ssa.Call)
-			if !ok {
-				continue
-			}
-			bi, ok := call.Call.Value.(*ssa.Builtin)
-			if !ok || bi.Name() != "delete" {
-				continue
-			}
-			cls := fi.RefClass(call.Call.Args[0])
-			if f, ok := cls.FieldOf("EventLogger"); !ok || f != "logs" {
-				continue
-			}
-			if !an.Held(lf.StateAt(call, "EventLogger.mu")) || !an.Held(lf.StateAt(st, "EventLogger.mu")) {
-				continue
-			}
-			// key is an element of a slice that the append feeds
-			kt := fi.Term(call.Call.Args[1])
-			if kt.K == an.KLoad && len(kt.A) == 1 && kt.A[0].K == an.KIA {
-				if phi, ok := kt.A[0].A[0].Val.(*ssa.Phi); ok && feeds(list, phi, 0) {
-					return true
-				}
+	for _, d := range logDeletes(p, fn) {
+		if !an.Held(lf.StateAt(d.at, "EventLogger.mu")) || !an.Held(lf.StateAt(st, "EventLogger.mu")) {
+			continue
+		}
+		// key is an element of a slice that the append feeds
+		kt := d.key
+		if kt.K == an.KLoad && len(kt.A) == 1 && kt.A[0].K == an.KIA {
+			if phi, ok := kt.A[0].A[0].Val.(*ssa.Phi); ok && feeds(list, phi, 0) {
+				return true
 			}
 		}
 	}
 	return false
+}
+
+// logDelete is a deletion from the log map as function fn sees it: a delete(l.logs, key) in fn, or a call of a
+// straight-line method of the same logger that performs it (key in fn's vocabulary).
+type logDelete struct {
+	at  *ssa.Call
+	key *an.Term
+}
+
+func logDeletes(p *an.Program, fn *ssa.Function) []logDelete {
+	fi := p.Info(fn)
+	var out []logDelete
+	direct := func(g *ssa.Function) []logDelete {
+		gi := p.Info(g)
+		var ds []logDelete
+		for _, b := range g.Blocks {
+			for _, in := range b.Instrs {
+				call, ok := in.(*ssa.Call)
+				if !ok {
+					continue
+				}
+				if bi, ok := call.Call.Value.(*ssa.Builtin); ok && bi.Name() == "delete" {
+					if f, ok := gi.RefClass(call.Call.Args[0]).FieldOf("EventLogger"); ok && f == "logs" {
+						ds = append(ds, logDelete{call, gi.Term(call.Call.Args[1])})
+					}
+				}
+			}
+		}
+		return ds
+	}
+	out = append(out, direct(fn)...)
+	for _, b := range fn.Blocks {
+		for _, in := range b.Instrs {
+			call, ok := in.(*ssa.Call)
+			if !ok {
+				continue
+			}
+			sc := call.Call.StaticCallee()
+			if sc == nil || sc == fn || sc.Pkg != fn.Pkg || !p.Transparent(sc) || len(sc.Params) == 0 || len(call.Call.Args) == 0 {
+				continue
+			}
+			// same logger: the helper's receiver is the caller's receiver
+			if len(fn.Params) == 0 || fi.Term(call.Call.Args[0]).Key() != fi.Term(fn.Params[0]).Key() {
+				continue
+			}
+			for _, d := range direct(sc) {
+				if k := fi.InstantiateTerm(d.key, call); k != nil {
+					out = append(out, logDelete{call, k})
+				}
+			}
+		}
+	}
+	return out
 }
 
 func feeds(v ssa.Value, phi *ssa.Phi, depth int) bool {
@@ -439,7 +496,8 @@ func evictLemma(p *an.Program, o an.BoundObl) (bool, string) {
 	switch in := o.Instr.(type) {
 	case *ssa.IndexAddr:
 		if k, ok := fi.Term(in.Index).IsConst(); !ok || k != "0" {
-			return false, ""
+			// cursor form: list[next] with next = 0, 1, 2, ... where each iteration deletes exactly list[next] from the map
+			return evictCursorLemma(p, o, in)
 		}
 		x = in.X
 	case *ssa.Slice:
@@ -479,6 +537,68 @@ func evictLemma(p *an.Program, o an.BoundObl) (bool, string) {
 		return false, ""
 	}
 	return true, "lemma EVICT: need + size > max and need <= max give size >= 1 (BOUND); by ACCOUNT (proved on this run) size is the total of the stored lines, so the map is non-empty; the list was filled with every entry of the map in this critical section and loses exactly the entry that is deleted, so it is non-empty"
+}
+
+// evictCursorLemma: updateOrder[next] in an eviction loop that walks the list with an index instead of popping its front.
+func evictCursorLemma(p *an.Program, o an.BoundObl, ia *ssa.IndexAddr) (bool, string) {
+	fi := p.Info(o.Fn)
+	x := ia.X
+	sl, ok := x.Type().Underlying().(*types.Slice)
+	if !ok || namedOfPtr(sl.Elem()) != "LogEntry" {
+		return false, ""
+	}
+	next := fi.Term(ia.Index)
+	if next.K != an.KPhi || !fromZeroStepOne(fi, next) {
+		return false, ""
+	}
+	// guard: size >= 1 at the access (need + size > max and need <= max)
+	s := fi.SysFor(o.Instr)
+	var sizeT *an.Term
+	for _, f := range fi.FactsAt(o.Instr) {
+		f.T.Walk(func(t *an.Term) {
+			if fld, _, ok := mapFieldOfTerm(t); ok && fld == "logSizeBytes" {
+				sizeT = t
+			}
+		})
+	}
+	if sizeT == nil || !s.ProveGE(sizeT, 1) {
+		return false, ""
+	}
+	if !filledFromLogs(p, o.Fn, x) {
+		return false, ""
+	}
+	// the loop body deletes exactly the line of list[next] from the map, on every iteration
+	l := innermostLoopOf(o.Fn, ia.Block())
+	if l == nil {
+		return false, ""
+	}
+	var del *ssa.Call
+	for _, d := range logDeletes(p, o.Fn) {
+		if !l.body[d.at.Block()] {
+			continue
+		}
+		// key: the line field of the entry loaded from list[next]
+		if strings.Contains(d.key.Key(), next.Key()) && strings.Contains(d.key.Key(), ".line") {
+			del = d.at
+		}
+	}
+	if del == nil || !l.everyIteration(del.Block()) {
+		return false, ""
+	}
+	// the list itself is not written inside the loop
+	for _, b := range o.Fn.Blocks {
+		if !l.body[b] {
+			continue
+		}
+		for _, in := range b.Instrs {
+			if st, ok := in.(*ssa.Store); ok {
+				if al, ok := st.Addr.(*ssa.Alloc); ok && fi.Term(al).Key() == fi.Term(x).Key() {
+					return false, ""
+				}
+			}
+		}
+	}
+	return true, "lemma EVICT (cursor form): need + size > max and need <= max give size >= 1 (BOUND); by ACCOUNT size is the total of the stored lines, so the map is non-empty; the list was filled with every entry of the map in this critical section and iteration k deletes exactly list[k], so the entries still in the map are list[next:], which is therefore non-empty: next < len(list)"
 }
 
 // filledFromLogs: the slice variable only receives make(..., 0), append(list, entry) inside a
@@ -636,6 +756,22 @@ func eventLogSizeBound(c *an.Ctx) {
 					// need <= max
 					if t.A[0].K == an.KBin && t.A[0].S == "*" {
 						okNeed = true
+					}
+				}
+				if !okFit {
+					// the same inequality written differently (size <= max - need): BOUND's linear layer
+					sys := fi.SysFor(st)
+					seenMax := map[string]bool{}
+					for _, f := range fi.FactsAt(st) {
+						f.T.Walk(func(x *an.Term) {
+							if fm, _, ok := mapFieldOfTerm(x); ok && fm == "logMaxBytes" && !seenMax[x.Key()] {
+								seenMax[x.Key()] = true
+								if sys.ProveDiffLE(vt, x, 0) {
+									okFit = true
+									fitDesc = "BOUND: " + short(vt.Key()) + " <= " + short(x.Key())
+								}
+							}
+						})
 					}
 				}
 				c.Check(okFit, "BOUND-SZ", fn, st.Pos(), an.KeyOf(fn, "fits"), "the size counter is incremented only under need + size <= max for the very size value that is incremented (the stored total never exceeds the maximum)", "dominating fact "+fitDesc)
